@@ -154,7 +154,10 @@ UNIT = {
          "subst": [("<Id: Into<ItemId>>", "", 1, "R12"), ("id: Id,", "id: ItemId,", 1, "R12"), ("let id = id.into();", "", 1, "R12"),
                    ("match self.can_derive.entry(id) {", "match map_entry(&self.can_derive, &id) {", 1, "R17"),
                    ("Entry::Occupied(mut entry) =>", "EntryKind::Occupied =>", 1, "R17"),
-                   ("*entry.get() < can_derive", "cd_lt(map_get(&self.can_derive, &id), can_derive)", 1, "R17"),
+                   ("*entry.get() < can_derive", "cd_lt(map_get(&self.can_derive, &id), can_derive)", 0, "R17 derived PartialOrd `<` (if present)"),
+                   ("*entry.get() <= can_derive", "!cd_lt(can_derive, map_get(&self.can_derive, &id))", 0, "R17 derived PartialOrd `<=` (if present)"),
+                   ("*entry.get() > can_derive", "cd_lt(can_derive, map_get(&self.can_derive, &id))", 0, "R17 derived PartialOrd `>` (if present)"),
+                   ("*entry.get() >= can_derive", "!cd_lt(map_get(&self.can_derive, &id), can_derive)", 0, "R17 derived PartialOrd `>=` (if present)"),
                    ("entry.insert(", "map_insert(&mut self.can_derive, id, ", 2, "R17"),
                    ("Entry::Vacant(entry) =>", "EntryKind::Vacant =>", 1, "R17")],
          "ensures": [
